@@ -6,6 +6,9 @@
 //   driver d | ddriver d | step d
 //   sock i tcp|udp|acc d <onDisc> <holdRx> <selfDestroyInRecv>     (flags 0/1)
 //   send i | release i | dsock i
+//   echo i          (the most recently received buffer the user holds of socket i - a buffer of the socket's OWN receive
+//                    pool - is passed to Send/SendTo of socket i itself, the echo idiom of the repo's performance test;
+//                    it then sits in the send queue and must find its pool alive when the socket is destroyed)
 //   psend i | pclose i | preset i | pconn i                        (raw peer)
 //   sendfail i                                                     (the next send() the library issues on tcp socket i fails)
 //   todo t d <scheduled> | cancel t | shift t | droptodo t
@@ -125,6 +128,7 @@ struct World
   std::map<int, std::optional<ToDo>> todos;
   std::unique_ptr<BufferPool> pool = std::make_unique<BufferPool>(4U, 16U);
   std::vector<std::pair<std::future<void>, bool>> futs; // (future, already reported)
+  std::vector<char> futEcho; // per future: its buffer is a receive buffer of the socket (echo), not one of the send pool
   std::vector<SocketTcp> accepted;
   std::vector<std::string> events;
 
@@ -132,7 +136,10 @@ struct World
   int busy()
   {
     int n = 0;
-    for(auto &p : futs) if(!p.second && p.first.wait_for(std::chrono::seconds(0)) != std::future_status::ready) ++n;
+    for(size_t i = 0; i < futs.size(); ++i) {
+      auto &p = futs[i];
+      if(!futEcho[i] && !p.second && p.first.wait_for(std::chrono::seconds(0)) != std::future_status::ready) ++n;
+    }
     return n;
   }
 
@@ -204,6 +211,7 @@ void runHistory(std::vector<std::string> const &ops)
     else if(x[0] == "ddriver" || x[0] == "step") legal = drvAlive(N(1));
     else if(x[0] == "sock") legal = !sockPresent(N(1)) && drvAlive(N(3)) && !N(6) && !(N(4) && N(5));
     else if(x[0] == "send") legal = sockAlive(N(1)) && w.socks[N(1)].kind != "acc" && w.pool && w.busy() < 4;
+    else if(x[0] == "echo") legal = sockAlive(N(1)) && w.socks[N(1)].kind != "acc" && !w.socks[N(1)].held.empty();
     else if(x[0] == "release") legal = sockPresent(N(1));
     else if(x[0] == "dsock") legal = sockAlive(N(1)) && w.socks[N(1)].held.empty();
     else if(x[0] == "psend") legal = sockPresent(N(1)) && w.socks[N(1)].kind != "acc" &&
@@ -264,12 +272,26 @@ void runHistory(std::vector<std::string> const &ops)
         auto &s = w.socks.at(N(1));
         auto b = w.pool->Get();
         b->assign("data");
-        if(s.tcp) w.futs.emplace_back(s.tcp->Send(std::move(b)), false);
+        if(s.tcp) { w.futs.emplace_back(s.tcp->Send(std::move(b)), false); w.futEcho.push_back(0); }
         else if(s.udp) {
           auto dst = loop(0);
           socklen_t l = sizeof(dst);
           ::getsockname(s.udpPeer, reinterpret_cast<sockaddr *>(&dst), &l);
           w.futs.emplace_back(s.udp->SendTo(std::move(b), Address("127.0.0.1:" + std::to_string(ntohs(dst.sin_port)))), false);
+          w.futEcho.push_back(0);
+        }
+      } else if(x[0] == "echo") {
+        // the buffer leaves the user's hands: it belongs to the socket's receive pool and now sits in its send queue
+        auto &s = w.socks.at(N(1));
+        auto b = std::move(s.held.back());
+        s.held.pop_back();
+        if(s.tcp) { w.futs.emplace_back(s.tcp->Send(std::move(b)), false); w.futEcho.push_back(1); }
+        else if(s.udp) {
+          auto dst = loop(0);
+          socklen_t l = sizeof(dst);
+          ::getsockname(s.udpPeer, reinterpret_cast<sockaddr *>(&dst), &l);
+          w.futs.emplace_back(s.udp->SendTo(std::move(b), Address("127.0.0.1:" + std::to_string(ntohs(dst.sin_port)))), false);
+          w.futEcho.push_back(1);
         }
       } else if(x[0] == "release") {
         w.socks.at(N(1)).held.clear();
